@@ -3,15 +3,16 @@
 package c04
 
 import (
-	"log"
-	"io"
 	"bytes"
 	"encoding/binary"
 	"encoding/hex"
 	"encoding/json"
 	"fmt"
+	"io"
+	"log"
 	"os"
 	"runtime"
+	"strconv"
 	"sync"
 	"testing"
 
@@ -40,6 +41,7 @@ type corruptCase struct {
 	BitPos  int    `json:"bit_pos"`
 	Length  int    `json:"burst_length"`
 	Pattern uint32 `json:"pattern"`
+	Note    string `json:"note,omitempty"`
 }
 
 func applyBurst(dst, src []byte, bitPos, length int, pattern uint32) {
@@ -431,11 +433,41 @@ func drawFile(d gen.D) ([]byte, string) {
 	}
 }
 
+// fourGiB checks a streamed 4 GiB file with CheckIntegrity: k=0 intact under
+// a 12-byte header (data size 2^32-1), k=1 under a 14-byte header with a
+// valid header CRC (data size 2^32-2) and one bit inverted half way.
+func fourGiB(k int) string {
+	var g *gen.BigFile
+	if k == 0 {
+		g = gen.NewBigFile(0xFFFFFFFF, 0xFFFFFFFF, nil)
+	} else {
+		g = gen.NewBigFile(0xFFFFFFFE, 0xFFFFFFFE, nil, true)
+		g.FlipAt = 1 << 31
+	}
+	var err error
+	if p := oracle.Catch(func() { err = fit.CheckIntegrity(g, false) }); p != nil {
+		return fmt.Sprintf("CheckIntegrity panicked on a %d-byte file: %v", g.Total(), p)
+	}
+	switch {
+	case k == 0 && err != nil:
+		return fmt.Sprintf("CheckIntegrity rejects an intact %d-byte file (12-byte header, data size 2^32-1): %v", g.Total(), err)
+	case k == 1 && err == nil:
+		return fmt.Sprintf("CheckIntegrity returned nil for a %d-byte file (14-byte header with a valid CRC, data size 2^32-2) with one bit inverted at offset 2^31; it read %d bytes", g.Total(), g.Delivered)
+	}
+	return ""
+}
+
 func TestC04(t *testing.T) {
 	hx.Main(t, "C04", func(rec *hx.Recorder) {
 		if rp, ok := hx.LoadReplay(); ok {
 			rec.Eval("replay", 1)
 			switch rp.Sub {
+			case "four-gib":
+				for k := 0; k < 2; k++ {
+					if msg := fourGiB(k); msg != "" {
+						rec.Fail(rp.Sub, "", msg, corruptCase{Note: msg})
+					}
+				}
 			case "headers", "header-grid":
 				var c headerCase
 				json.Unmarshal(rp.Case, &c)
@@ -458,6 +490,27 @@ func TestC04(t *testing.T) {
 			}
 			return
 		}
+		// files that really are 4 GiB long (data sizes 2^32-2 and 2^32-1,
+		// streamed, not held): the intact one passes CheckIntegrity, one
+		// with a single bit inverted half way fails it. They run while the
+		// rest of this process's work goes on (first shard, 64-bit builds).
+		var big []chan string
+		if hx.FirstShard() && strconv.IntSize == 64 && os.Getenv("VERIF_VARIANT") == "" {
+			for k := 0; k < 2; k++ {
+				ch := make(chan string, 1)
+				big = append(big, ch)
+				go func(k int) { ch <- fourGiB(k) }(k)
+			}
+		}
+		defer func() {
+			for _, ch := range big {
+				rec.Eval("four-gib", 1)
+				rec.NonTrivialEnum(1)
+				if msg := <-ch; msg != "" {
+					rec.Fail("four-gib", "", msg, corruptCase{Note: msg})
+				}
+			}
+		}()
 		regions := map[string]int64{}
 
 		// (C) header verdict grid: sizes x protocol x data type x crc modes
